@@ -81,6 +81,7 @@ fn registry() -> Vec<PropDef> {
         prop!("C08", c08),
         prop_bfs!("C11", c11),
         prop_bfs!("C12", c12),
+        prop_bfs!("C15", c15),
         prop!("C16", c16),
         prop!("C17", c17),
     ]
